@@ -70,7 +70,25 @@ int _vnacommon_spline_calc(int n, const double *x_vector,
     /*
      * Special-case a single element.
      */
-    if (n < 2) {
+    if (n < 1) {
+	return 0;
+    }
+
+    /*
+     * Special-case a single segment: the natural spline through two
+     * points is the straight line through them.
+     */
+    if (n == 1) {
+	double h = x_vector[1] - x_vector[0];
+
+	if (h < MIN_DX) {
+	    /* error reported by caller */
+	    errno = EINVAL;
+	    return -1;
+	}
+	c_vector[0][B] = (y_vector[1] - y_vector[0]) / h;
+	c_vector[0][C] = 0.0;
+	c_vector[0][D] = 0.0;
 	return 0;
     }
 
@@ -184,13 +202,6 @@ double _vnacommon_spline_eval(int n, const double *x_vector,
     if (n < 1) {
 	errno = EINVAL;
 	return HUGE_VAL;
-    }
-
-    /*
-     * Special-case one element.
-     */
-    if (n == 1) {
-	return y_vector[0];
     }
 
     /*
